@@ -223,13 +223,22 @@ Proof.
 Qed.
 
 (* ... and, by C01_link_matchdata_exact, the match data of Match.v's evaluation under any order oracle *)
+(* a covered link reads none of the MATCHED_* variables *)
+Lemma b2_link_ok_reads b : b2_link_ok b = true -> reads_mvar (bl_m b) = false.
+Proof.
+  unfold b2_link_ok, reads_mvar. intro H. rewrite forallb_forall in H.
+  destruct (existsb _ _) eqn:E; [|reflexivity]. apply existsb_exists in E as [t [Ht Hm]].
+  specialize (H t Ht). unfold b2_rtarget_ok in H. apply andb_true_iff in H as [H _]. apply andb_true_iff in H as [H _].
+  destruct (rt_var t); discriminate.
+Qed.
+
 Theorem b2_matches_are_link_matches X ord e st b lvl s s' mds : b2_agree e st -> b2_link_ok b = true ->
   wf_state st -> ok_oracle ord ->
   Setvar.eval_link (b2_op X) e (bl_sv X b) lvl s = (s', mds) ->
   Permutation (map sv_triple mds) (map m_triple (Match.link_matches X ord st (bl_m b))).
 Proof.
   intros Hag Hok Hwf Hord H. etransitivity; [eapply b2_matches_are_spec; eassumption|].
-  apply Permutation_map, Permutation_sym, link_matches_spec; assumption.
+  apply Permutation_map, Permutation_sym, link_matches_spec; try assumption. apply b2_link_ok_reads; assumption.
 Qed.
 
 (* the number of matched values of the link does not depend on the Setvar.v state *)
@@ -593,23 +602,21 @@ Example ex2_matches_r1 :
      = [(str "ARGS", str "a", str "attack1"); (str "ARGS", str "b", str "xattack")].
 Proof. vm_compute. split; reflexivity. Qed.
 
-(* why TX / MATCHED_VAR targets are outside the guard: the two models DIFFER on a link that lists
-   MATCHED_VAR after another target.  SecRule ARGS_GET|MATCHED_VAR "@streq x" on ?a=x :
-   Setvar.v (GetField of a target is evaluated when its turn comes, after the matches of the
-   earlier targets updated MATCHED_VAR - as rule.go does) finds 2 matches, Match.v (every target
-   of a link read in the state before the link) finds 1 *)
+(* TX / MATCHED_VAR targets are outside the guard (Setvar.v's variable table is smaller), but the
+   two models AGREE on a link that lists MATCHED_VAR after another target (Match.v threads the
+   MATCHED_* state between the targets of a link since the C01 follow-up, as rule.go does):
+   SecRule ARGS_GET|MATCHED_VAR "@streq x" on ?a=x gives 2 matches in both *)
 Definition ex2_mv_link : blink :=
   {| bl_m := mk_link [TPos false Match.VArgsGet SelAll; TPos false Match.VMatchedVar SelAll]
                      (LRule false (mk_op Match.OpStreq (str "x"))) [] false;
      bl_d := ex2_deco 9 0 false [] |}.
 Definition ex2_mv_req : request := mk_request [(str "a", str "x")] [] [] [] (str "/") (str "GET") [].
-Example b2_same_link_matched_var :
-  b2_link_ok ex2_mv_link = false /\
+Example b2_same_link_matched_var_agree :
   map sv_triple (snd (Setvar.eval_link (b2_op csem) (b2_env ex2_mv_req) (bl_sv csem ex2_mv_link) 0 st_init))
     = [(str "ARGS_GET", str "a", str "x"); (str "MATCHED_VAR", [], str "x")] /\
   map m_triple (Match.link_matches csem ord_id (build1 ex2_mv_req) (bl_m ex2_mv_link))
-    = [(str "ARGS_GET", str "a", str "x")].
-Proof. vm_compute. repeat split. Qed.
+    = [(str "ARGS_GET", str "a", str "x"); (str "MATCHED_VAR", [], str "x")].
+Proof. vm_compute. split; reflexivity. Qed.
 
 (* the number of C01-satisfying values of a covered link is a function of the request: any two
    Match.v states describing the request of e (before / after other rules, MATCHED_VAR and TX
